@@ -49,6 +49,23 @@ TEXTS = [
     '!!python/tuple [1, 2]\n', '!!python/name:os.path.join\n', '!!python/object:vf.gen.shapes.Plain {a: 1}\n', '!!python/object/apply:os.getcwd []\n', 'x: &x !!python/tuple [*x]\n',
     '- !!binary aGk=\n- !!timestamp 2001-01-01\n', '{a: 1, a: 2}\n', 'a:\n  b:\n    c: [d, {e: f}]\n', '- - - deep\n', 'key: !!null\n', '--- >+\n keep\n\n...\n--- next\n']
 BYTES = [b'a: b\n', b'\xff\xfea\x00:\x00 \x00b\x00\n\x00', b'\xef\xbb\xbfa: b\n', b'a: \xff\n', b'\x00', b'k: "\xc3\xa9"\n']
+
+
+def _straddle():
+    """UTF-8 bytes in which a two-byte character lies across every 4096-byte read boundary (inside comments), before the first
+    document, between the documents and after the last one: a reader abandoned anywhere has an incomplete character pending."""
+    out = b''
+    for tail in (b'a: b\n', b'--- c\n', b'--- [d, e]\n', b''):
+        out += b'#'
+        if len(out) % 2 == 0:
+            out += b' '
+        out += (chr(0xe9) * 4300).encode('utf-8') + b'\n' + tail
+    assert all(out[k - 1] == 0xc3 for k in range(4096, len(out), 4096)), 'no straddle'
+    return out
+
+
+BYTES.append(_straddle())
+BYTES.append(b'k: "' + (chr(0x4e2d) * 3000).encode('utf-8') + b'"\n--- x\n')
 LOADERS = ['BaseLoader', 'SafeLoader', 'FullLoader', 'UnsafeLoader', 'CBaseLoader', 'CSafeLoader', 'CFullLoader', 'CUnsafeLoader']
 READ_OPS = ['scan', 'parse', 'compose', 'compose_all', 'load', 'load_all']
 
@@ -127,6 +144,12 @@ def pool():
         for ln in ('SafeLoader', 'CSafeLoader'):
             out.append(('readb', bi, 'load_all', ln, 'bytes'))
             out.append(('readb', bi, 'scan', ln, 'stream'))
+            if bi >= 6:
+                # long byte streams: single-document calls that fail before the end is read, and item-wise calls (abandoned half-way in histories)
+                out.append(('readb', bi, 'load', ln, 'stream'))
+                out.append(('readb', bi, 'load_all', ln, 'stream'))
+                out.append(('readb', bi, 'parse', ln, 'stream'))
+                out.append(('readb', bi, 'compose', ln, 'stream'))
     nv = len(make_values())
     for vi in range(nv):
         for di, (dn, o) in enumerate(DUMP_VARIANTS):
@@ -620,10 +643,65 @@ def run(spec, ctx):
                 emit_stream_case(r, ctx, i)
             if i % 6 == 1:
                 serialize_stream_case(r, ctx, i)
+            if i % 5 == 2:
+                reuse_case(r, ctx, i)
+
+
+REUSE_OPTS = [{}, {'canonical': True}, {'allow_unicode': True}, {'default_style': '"'}, {'default_flow_style': True}, {'width': 20, 'indent': 4}, {'default_style': '|'},
+              {'explicit_start': True, 'version': (1, 1)}, {'tags': {'!e!': 'tag:e.com,2000:'}}, {'line_break': '\r\n'}, {'default_flow_style': False, 'sort_keys': False}]
+REUSE_TEXTS = ['a: 1\nb: [x, y]\n', 'caf' + E9 + ': [' + chr(0x4e2d) + ', "q", ''\'s\', |\n  lit\n]\n'.replace('|\n  lit\n', 'z'), '- &a [1, 2]\n- *a\n- {k: v}\n', '--- !e!t x\n'.replace('!e!t', '!<tag:e.com,2000:t>'),
+               'k: |\n  literal\n  text\nf: >\n  folded\n  text\n', '- 2001-01-01\n- 1.5\n- ~\n- yes\n- "12"\n', '? [a, b]\n: {c: d}\n', 'long: ' + 'word ' * 30 + '\n']
+
+
+def reuse_case(r, ctx, i):
+    """The caller's events, nodes and values belong to the caller: emitting / serializing / dumping them with one option set
+    must not colour a later call that is given the very same objects - its output is that of the call on equal, fresh objects."""
+    t = r.choice(REUSE_TEXTS)
+    o1, o2 = r.choice(REUSE_OPTS), r.choice(REUSE_OPTS)
+    e_opts = lambda o: {k: v for k, v in o.items() if k in ('canonical', 'allow_unicode', 'width', 'indent', 'line_break')}
+    s_opts = lambda o: {k: v for k, v in o.items() if k not in ('default_style', 'default_flow_style', 'sort_keys')}
+    for dn in yamlapi.loaders(['Dumper', 'CDumper']):
+        D = getattr(yaml, dn)
+        for level in ('emit', 'serialize', 'dump'):
+            case = {'reuse': level, 'text': t, 'first': o1, 'second': o2, 'D': dn}
+            ctx.crumb(case)
+            ctx.case(core.h64('reuse', level, t, repr(o1), repr(o2), dn), True, ['reuse:' + level])
+            try:
+                if level == 'emit':
+                    objs = list(yaml.parse(t, Loader=yaml.Loader))
+                    yaml.emit(objs, Dumper=D, **e_opts(o1))
+                    got = yaml.emit(objs, Dumper=D, **e_opts(o2))
+                    want = yaml.emit(list(yaml.parse(t, Loader=yaml.Loader)), Dumper=D, **e_opts(o2))
+                elif level == 'serialize':
+                    node = yaml.compose(t, Loader=yaml.Loader)
+                    yaml.serialize(node, Dumper=D, **s_opts(o1))
+                    got = yaml.serialize(node, Dumper=D, **s_opts(o2))
+                    want = yaml.serialize(yaml.compose(t, Loader=yaml.Loader), Dumper=D, **s_opts(o2))
+                else:
+                    data = yaml.load(t, Loader=yaml.Loader)
+                    yaml.dump(data, Dumper=D, **o1)
+                    got = yaml.dump(data, Dumper=D, **o2)
+                    want = yaml.dump(yaml.load(t, Loader=yaml.Loader), Dumper=D, **o2)
+            except yaml.YAMLError as e:
+                ctx.stat('reuse_rejected')
+                continue
+            ctx.stat('reuse_checks')
+            if got != want:
+                ctx.violation(case, {'what': 'a second call on the same caller objects gives another text than the call on fresh, equal objects (the first call left traces in them)',
+                                     'got': got[:400], 'want': want[:400]}, None)
 
 
 def replay(case, ctx):
     ctx.case(core.h64(repr(case)), True)
+    if 'reuse' in case:
+        class R:
+            def __init__(self, seq):
+                self.seq = list(seq)
+
+            def choice(self, xs):
+                return self.seq.pop(0)
+        reuse_case(R([case['text'], {k: (tuple(v) if k == 'version' else v) for k, v in case['first'].items()}, {k: (tuple(v) if k == 'version' else v) for k, v in case['second'].items()}]), ctx, 0)
+        return
     if 'stream' in case:
         check_stream(case['stream'], case['docs'], case['op'], case['loader'], ctx, case)
         return
